@@ -489,6 +489,15 @@ def mon_C09(run):
             continue
         k, d = row["k"], row["obs"]
         preds = []
+        # "never for an object that stays in the pool": a returned object is let go of as surplus
+        # only if the pool really holds more objects than max_size at that moment (objects other
+        # operations have already decided to discard or hand over do not count)
+        i0 = row["op"]
+        if prev is not None and run.ops[i0]["kind"] == "ret" and d["lbl"] == "ret.detach" \
+                and prev["labels"].get(i0, ("", False))[0] == "ret.lock" and prev["obs"]["max"] != "?":
+            pooled = [x for x in prev["live"] if x not in run.discarded_in_hand(prev)]
+            if len(pooled) <= int(prev["obs"]["max"]):
+                bad.append((k, f"returned object {run.ops[i0]['obj']} is discarded as surplus although the pool holds {len(pooled)} object(s) with max_size {prev['obs']['max']}"))
         for e in row["ev"]:
             name, args = ev_args(e)
             if name == "detach":
@@ -672,7 +681,11 @@ def mon_C06(run):
     """close(): final, prompt, leaves nothing behind"""
     if not run.has_close:
         return []
-    bad = []
+    # "those it held are released and detached": whatever the pool lets go of - at close() or
+    # on return afterwards - goes through Manager::detach exactly once before it is destroyed
+    bad = [(k, msg, "release-without-detach") for k, msg in object_history_violations(run)]
+    if bad:
+        return bad[:1]
     tl = resize_timeline(run)
     adm = admissions(run)
     closes = [e for e in tl.values() if e["kind"] == "close" and e["done"] is not None]
